@@ -129,6 +129,7 @@ func checkC15(c *km.Ctx) {
 	// ---------- R-C15-1
 	checkUpsertStatements(c, "R-C15-1", "user_profile", []string{"profile_data"}, 2)
 	checkGobStructs(c, "R-C15-1")
+	checkSchemasAgree(c, "R-C15-1")
 	if fn := c.MustFunc("R-C15-1", "cmd/keymasterd", "(*RuntimeState).SaveUserProfile"); fn != nil {
 		n := 0
 		for _, ci := range km.CallsIn(fn) {
@@ -399,9 +400,19 @@ func checkC15(c *km.Ctx) {
 				if km.IsNilConst(v) {
 					continue
 				}
-				if u, ok := v.(*ssa.Call); !ok || u != cm {
-					okAfter = false
+				if u, ok := v.(*ssa.Call); ok && u == cm {
+					continue
 				}
+				// Commit's error with context: fmt.Errorf over it, on paths on which it is known to be non-nil
+				if u, ok := v.(*ssa.Call); ok && km.CalleeFull(u.Common()) == "fmt.Errorf" && errorfWraps(u, cm) &&
+					rc.State.All(func(k km.Conj) bool {
+						return s.Holds(k, km.Prim{Name: "Commit failed", Direct: func(f km.Fact) bool {
+							return f.Op == token.NEQ && f.X == ssa.Value(cm) && km.IsNilConst(f.Y)
+						}})
+					}) {
+					continue
+				}
+				okAfter = false
 			}
 			r.Add("R-C15-2", km.FuncName(cp), "Commit is last", posOf(c, cm), "after Commit only nil or Commit's own error is returned", sprintf("%v", okAfter), okAfter)
 			// and success means committed: the synchronisation reports nil only after Commit (a run that decides
@@ -446,6 +457,41 @@ func checkC15(c *km.Ctx) {
 					continue
 				}
 				nRows++
+				// "unexpired signed records": a filter on the expiry column compares it with the current time and
+				// nothing else (a margin added to it leaves live records out of the cache)
+				{
+					qa := qc.Common().Args
+					ti := 1
+					if strings.HasSuffix(qn, "Context") {
+						ti = 2
+					}
+					if ti < len(qa) {
+						if text, isT := constSQL(qa[ti]); isT && strings.Contains(strings.ToLower(text), "expiration_epoch") {
+							var ops []ssa.Value
+							if sp, isSp := km.Unwrap(qa[ti]).(*ssa.Call); isSp && km.CalleeFull(sp.Common()) == "fmt.Sprintf" {
+								ops = append(ops, variadicVals(sp.Common().Args[len(sp.Common().Args)-1])...)
+							}
+							if ti+1 < len(qa) {
+								ops = append(ops, variadicVals(qa[len(qa)-1])...)
+							}
+							bad := ""
+							for _, o := range ops {
+								v := km.Unwrap(o)
+								if cv, isCv := v.(*ssa.Convert); isCv {
+									v = km.Unwrap(cv.X)
+								}
+								if !isNowUnix(v) {
+									bad = clipS(km.ValStr(o), 100)
+								}
+							}
+							found := sprintf("%d operand(s), each time.Now().Unix()", len(ops))
+							if bad != "" {
+								found = "compared with " + bad
+							}
+							r.Add("R-C15-3", km.FuncName(cp), "expiry filter of the copied records", posOf(c, qc), "the expiry column is compared with the current time only", found, bad == "")
+						}
+					}
+				}
 				errChecked := km.Prim{Name: "rows.Err() == nil", Rel: func(f km.Fact, resolve func(ssa.Value) ssa.Value) bool {
 					if f.Op != token.EQL || !km.IsNilConst(f.Y) {
 						return false
@@ -1465,4 +1511,145 @@ func callArgsAsParams(ci ssa.CallInstruction, fn *ssa.Function) []ssa.Value {
 		return cc.Args
 	}
 	return nil
+}
+
+// checkSchemasAgree: the primary store and the offline cache are created from two sets of CREATE TABLE texts (one
+// per SQL dialect). What identifies a row has to mean the same in both: for every table the texts define, the
+// columns carry the same names, the same class of type, the same uniqueness and the same collation (a
+// case-insensitive user name in one of them merges two users the other keeps apart).
+func checkSchemasAgree(c *km.Ctx, rule string) {
+	type col struct {
+		class, collate string
+		unique         bool
+	}
+	type tbl struct {
+		cols  map[string]col
+		tcons []string
+		where string
+	}
+	byTable := map[string][]tbl{}
+	ddl := regexp.MustCompile(`(?is)create\s+table\s+(?:if\s+not\s+exists\s+)?([a-z_0-9]+)\s*\((.*)\)\s*;?\s*$`)
+	classOf := func(t string) string {
+		switch strings.ToLower(t) {
+		case "serial", "integer", "int", "bigint", "bigserial", "smallint":
+			return "integer"
+		case "text", "varchar":
+			return "text"
+		case "bytea", "blob":
+			return "bytes"
+		}
+		return strings.ToLower(t)
+	}
+	seenText := map[string]bool{}
+	for _, fn := range c.P.AllFuncs {
+		if fn.Pkg == nil || !pkgIsKMD(fn.Pkg) {
+			continue
+		}
+		km.Instrs(fn, func(in ssa.Instruction) {
+			for _, op := range in.Operands(nil) {
+				if op == nil || *op == nil {
+					continue
+				}
+				text, ok := km.ConstString(*op)
+				if !ok || seenText[text] {
+					continue
+				}
+				m := ddl.FindStringSubmatch(strings.TrimSpace(text))
+				if m == nil {
+					continue
+				}
+				seenText[text] = true
+				t := tbl{cols: map[string]col{}, where: posOf(c, in)}
+				// split the body at top-level commas
+				depth, start := 0, 0
+				var parts []string
+				for i, ch := range m[2] {
+					switch ch {
+					case '(':
+						depth++
+					case ')':
+						depth--
+					case ',':
+						if depth == 0 {
+							parts = append(parts, m[2][start:i])
+							start = i + 1
+						}
+					}
+				}
+				parts = append(parts, m[2][start:])
+				for _, p := range parts {
+					f := strings.Fields(strings.ToLower(p))
+					if len(f) == 0 {
+						continue
+					}
+					if strings.HasPrefix(f[0], "unique") || strings.HasPrefix(f[0], "primary") || strings.HasPrefix(f[0], "constraint") || strings.HasPrefix(f[0], "foreign") || strings.HasPrefix(f[0], "check") {
+						t.tcons = append(t.tcons, strings.Join(strings.Fields(strings.ReplaceAll(strings.ToLower(p), " ", "")), ""))
+						continue
+					}
+					cl := col{}
+					if len(f) > 1 {
+						cl.class = classOf(f[1])
+					}
+					for i := 2; i < len(f); i++ {
+						switch f[i] {
+						case "unique":
+							cl.unique = true
+						case "primary":
+							cl.unique = true
+						case "collate":
+							if i+1 < len(f) {
+								cl.collate = f[i+1]
+							}
+						}
+					}
+					t.cols[f[0]] = cl
+				}
+				sort.Strings(t.tcons)
+				byTable[strings.ToLower(m[1])] = append(byTable[strings.ToLower(m[1])], t)
+			}
+		})
+	}
+	names := make([]string, 0, len(byTable))
+	for n := range byTable {
+		names = append(names, n)
+	}
+	sort.Strings(names)
+	nCmp := 0
+	for _, n := range names {
+		defs := byTable[n]
+		if len(defs) < 2 {
+			continue
+		}
+		nCmp++
+		var diffs []string
+		ref := defs[0]
+		for _, d := range defs[1:] {
+			if strings.Join(d.tcons, ";") != strings.Join(ref.tcons, ";") {
+				diffs = append(diffs, sprintf("table constraints %v / %v", ref.tcons, d.tcons))
+			}
+			var cn []string
+			for k := range ref.cols {
+				cn = append(cn, k)
+			}
+			for k := range d.cols {
+				if _, has := ref.cols[k]; !has {
+					cn = append(cn, k)
+				}
+			}
+			sort.Strings(cn)
+			for _, k := range cn {
+				a, hasA := ref.cols[k]
+				b, hasB := d.cols[k]
+				if !hasA || !hasB {
+					diffs = append(diffs, "column "+k+" defined in one dialect only")
+				} else if a != b {
+					diffs = append(diffs, sprintf("column %s: %+v at %s / %+v at %s", k, a, ref.where, b, d.where))
+				}
+			}
+		}
+		c.R.Add(rule, "cmd/keymasterd", "table "+n+" means the same in the primary and in the cache", ref.where, "the CREATE TABLE texts of the dialects agree on column names, type class, uniqueness and collation", sprintf("%d definitions compared; %s", len(defs), strings.Join(diffs, "; ")), len(diffs) == 0)
+	}
+	if nCmp < 2 {
+		c.R.AnchorLost(rule, sprintf("CREATE TABLE texts of user_profile / expiring_signed_user_data in two dialects (found %d tables with two definitions)", nCmp))
+	}
 }
